@@ -68,6 +68,9 @@ type op struct {
 	On      bool      `json:"on"`
 	NoWait  bool      `json:"nowait"`
 	Size    int       `json:"size"`
+	Hold    string    `json:"hold"`    // race: the gate at which operation A is parked
+	A       *op       `json:"a"`       // race: the operation that is parked
+	B       []op      `json:"b"`       // race: the operations that run to completion meanwhile
 	Order   []int     `json:"order"`   // peerfail: the order in which the survivors are told
 	Stagger bool      `json:"stagger"` // peerfail: deliver gossip between the notifications
 }
@@ -334,6 +337,41 @@ func (x *runner) run(idx int, s scenario) {
 	}
 }
 
+// own runs one client operation without waiting for the brokers to settle and returns when the client has its answer
+// (SUBACK, UNSUBACK, PUBACK / PUBCOMP, or - for packets without one - when the connection loop has processed it).
+func (x *runner) own(o op) {
+	cl := x.client(o.C)
+	if cl == nil {
+		x.step(o)
+		return
+	}
+	want := map[string]int{"sub": mq.SUBACK, "unsub": mq.UNSUBACK}[o.Op]
+	if o.Op == "pub" && o.Q == 1 {
+		want = mq.PUBACK
+	} else if o.Op == "pub" && o.Q == 2 {
+		want = mq.PUBCOMP
+	}
+	before := 0
+	if want != 0 {
+		before = cl.CountRecv(want)
+	}
+	o.NoWait = true
+	x.step(o)
+	sid := fmt.Sprintf("s%d", o.C)
+	ok := x.w.WaitFor(func() bool {
+		if cl.ClosedByBroker() {
+			return true
+		}
+		if want != 0 {
+			return cl.CountRecv(want) > before
+		}
+		return x.w.Count("conn.pkt.done:"+sid) >= cl.Sent()
+	}, 5*time.Second)
+	if !ok {
+		x.r.Emit(rec.Ev{"op": "race.note", "what": "no answer within 5 s", "to": o.Op, "c": o.C})
+	}
+}
+
 func (x *runner) step(o op) {
 	w := x.w
 	switch o.Op {
@@ -567,6 +605,39 @@ func (x *runner) step(o op) {
 			x.r.Emit(rec.Ev{"op": "purge.waited", "ms": o.Ms})
 			x.settle()
 		}
+	case "race":
+		// operation A is parked at gate Hold inside the broker; the operations B run to completion; A is released.
+		// Without the build tag "gates" nothing is parked: A simply runs first.
+		if o.A == nil {
+			return
+		}
+		w.Gates.Arm(o.Hold)
+		parked := w.Gates.Parked(o.Hold)
+		doneA := make(chan struct{})
+		go func() { x.own(*o.A); close(doneA) }()
+		isParked := false
+		if parked != nil {
+			select {
+			case <-parked:
+				isParked = true
+			case <-doneA:
+			case <-time.After(2 * time.Second):
+			}
+		} else {
+			<-doneA
+		}
+		x.r.Emit(rec.Ev{"op": "race.parked", "hold": o.Hold, "parked": isParked})
+		for _, b := range o.B {
+			x.own(b)
+		}
+		w.Gates.Release(o.Hold)
+		x.r.Emit(rec.Ev{"op": "race.released", "hold": o.Hold})
+		select {
+		case <-doneA:
+		case <-time.After(10 * time.Second):
+			x.r.Emit(rec.Ev{"op": "race.note", "what": "operation A did not finish within 10 s", "to": o.A.Op, "c": o.A.C})
+		}
+		x.settle()
 	case "faillog":
 		w.Nodes[o.N].Log.FailNext(o.K)
 		x.r.Emit(rec.Ev{"op": "inject", "what": "log.append", "n": o.N, "k": o.K})
